@@ -5,8 +5,14 @@ package main
 // C20: reference parsing, round trip, Repository.ParseReference and URL slots.
 
 import (
+	"bytes"
+	"context"
 	"fmt"
+	"github.com/opencontainers/go-digest"
+	ocispec "github.com/opencontainers/image-spec/specs-go/v1"
+	"io"
 	"math/rand"
+	"net/http"
 	"net/url"
 	"strings"
 
@@ -217,6 +223,51 @@ func runC20(seed int64, tier string, sc *Script) map[string]any {
 		}
 	}
 	runForms(repo, base, "h:5", inputs)
+	// the same forms through the operations that take a reference string: which requests go
+	// out, and to which path
+	{
+		mbytes := []byte(`{"schemaVersion":2,"mediaType":"application/vnd.oci.image.manifest.v1+json","config":{"mediaType":"application/vnd.oci.empty.v1+json","digest":"sha256:44136fa355b3678a1146ad16f7e8649e94fb4fc21fe77e8310c060f61caaff8a","size":2},"layers":[]}`)
+		mdesc := ocispec.Descriptor{MediaType: ocispec.MediaTypeImageManifest, Digest: digest.FromBytes(mbytes), Size: int64(len(mbytes))}
+		rec := &recordingRT{body: mbytes, desc: mdesc}
+		opRepo, err := remote.NewRepository("h:5/a/b")
+		if err != nil {
+			panic(err)
+		}
+		opRepo.Client = &http.Client{Transport: rec}
+		ctx := context.Background()
+		for _, in := range inputs {
+			if strings.ContainsAny(in, " \t\n") || len(in) > 200 {
+				continue
+			}
+			ro := regOK(in)
+			for _, kind := range []string{"resolve", "fetchref", "pushref", "tag"} {
+				rec.reqs = nil
+				var err error
+				switch kind {
+				case "resolve":
+					_, err = opRepo.Resolve(ctx, in)
+				case "fetchref":
+					var rc io.ReadCloser
+					_, rc, err = opRepo.FetchReference(ctx, in)
+					if err == nil {
+						rc.Close()
+					}
+				case "pushref":
+					err = opRepo.PushReference(ctx, mdesc, bytes.NewReader(mbytes), in)
+				case "tag":
+					err = opRepo.Tag(ctx, mdesc, in)
+				}
+				ans := "err"
+				if len(rec.reqs) > 0 {
+					ans = strings.Join(rec.reqs, " ")
+				} else if err == nil {
+					ans = "no-request"
+				}
+				sc.Op(ans, "ref req kind=%s regok=%s base=%s dg=%s s=%s", kind, ro, base, mdesc.Digest, in)
+				evals++
+			}
+		}
+	}
 	// a repository whose registry has letters in both cases and dots
 	repo2, err := remote.NewRepository("Reg.Example.io/team/app")
 	if err != nil {
@@ -236,4 +287,44 @@ func runC20(seed int64, tier string, sc *Script) map[string]any {
 	sc.Extra["exhaustive_short_len"] = shortMax
 	sc.Extra["exhaustive_path_len"] = pathMax
 	return nil
+}
+
+// recordingRT answers manifest requests of one repository and records method and path.
+type recordingRT struct {
+	reqs []string
+	body []byte
+	desc ocispec.Descriptor
+}
+
+func (r *recordingRT) RoundTrip(req *http.Request) (*http.Response, error) {
+	line := req.Method + ":" + req.URL.EscapedPath()
+	if req.URL.RawQuery != "" {
+		line += "?" + req.URL.RawQuery
+	}
+	if req.URL.Host != "h:5" {
+		line += "@" + req.URL.Host
+	}
+	r.reqs = append(r.reqs, line)
+	if req.Body != nil {
+		io.Copy(io.Discard, req.Body)
+		req.Body.Close()
+	}
+	h := http.Header{}
+	h.Set("Content-Type", r.desc.MediaType)
+	h.Set("Docker-Content-Digest", r.desc.Digest.String())
+	mk := func(code int, body []byte) *http.Response {
+		return &http.Response{StatusCode: code, Status: fmt.Sprint(code), Header: h, ContentLength: int64(len(body)),
+			Body: io.NopCloser(bytes.NewReader(body)), Request: req}
+	}
+	switch req.Method {
+	case http.MethodHead:
+		resp := mk(200, nil)
+		resp.ContentLength = int64(len(r.body))
+		return resp, nil
+	case http.MethodGet:
+		return mk(200, r.body), nil
+	case http.MethodPut:
+		return mk(201, nil), nil
+	}
+	return mk(404, nil), nil
 }
